@@ -82,6 +82,18 @@ STR_PIECES = ["", "a", "abc", "'", "''", "o'x", "'lead", "trail'", "a'b'c", "%",
 def gen_str(rng):
     n = rng.choice([0, 1, 1, 2, 3, 5])
     content = "".join(rng.choice(STR_PIECES) for _ in range(n))
+    if rng.random() < 0.2:
+        # the whole content spells a well-formed literal of ANOTHER kind (with or without its
+        # prefix and quotes), a keyword or an operator: still a string
+        kind = rng.choice(["int", "float", "bool", "null", "guid", "date", "time", "datetime",
+                           "duration", "duration-bare", "word"])
+        if kind == "word":
+            content = rng.choice(["eq", "and", "not", "in", "any", "all", "add", "null", "true", "INF", "NaN"])
+        elif kind == "duration-bare":
+            sp = GEN["duration"](rng)[0]
+            content = sp[sp.index("'") + 1:-1]
+        else:
+            content = GEN[kind](rng)[0]
     if rng.random() < 0.15:
         content = "".join(chr(rng.choice([rng.randrange(32, 127), rng.randrange(0xA0, 0x3000),
                                           rng.randrange(0x1F300, 0x1F700), 39]))
